@@ -17,3 +17,8 @@ package exptypes
 //@ func coerceRecord
 //@   results r
 //@   ensures (v is types.Record) ==> (r is types.Record)
+
+// Tags are coerced only when the entity type declares a tag type: coerceValue has no case for a
+// missing type and would hand back nil (the caller then calls a method on it).
+//@ func coerceTagValues
+//@   assert before "m := tags.Map()" type_present: tagType != nil
